@@ -67,7 +67,8 @@ ObsInto(x, obs) ==
   [x EXCEPT !.nd = [i \in Obj |-> ObjRec(obs, i).nd],
             !.nf = [i \in Obj |-> ObjRec(obs, i).nf],
             !.ub = UbOf(obs),
-            !.xblocks = obs.blocks - LibBlocks(HeapOf(obs))]
+            !.xblocks = obs.blocks - LibBlocks(HeapOf(obs)),
+            !.badrel = obs.badrel]
 
 LibFrame  == <<Frame("lib", 0)>>
 UserFrame(o) == <<[Frame("value", o) EXCEPT !.ph = "script"]>>
